@@ -43,11 +43,12 @@ const (
 	opRecv    // (Ch, Idx) -> B
 	opMutate  // caller-side overwrite of exported fields of A from a fresh value built from Seed
 	opCorrupt // A bytes -> B bytes: copy, then truncate / flip / splice per Seed
+	opVolume  // A pkt: N calls in a row, alternating between the packet and a near twin of it; every result must equal the first of its kind
 	numOps
 )
 
-func opVerdict(k uint8) bool { return k >= opMarshal && k <= opUnit }
-func opLibrary(k uint8) bool { return k >= opMarshal && k <= opBlockDSSRC }
+func opVerdict(k uint8) bool { return (k >= opMarshal && k <= opUnit) || k == opVolume }
+func opLibrary(k uint8) bool { return (k >= opMarshal && k <= opBlockDSSRC) || k == opVolume }
 
 type inboxEntry struct {
 	idx   int
@@ -610,7 +611,51 @@ func genSpec(seed uint64, cold bool, opOnly bool, tier string) *RunSpec {
 	s.PreRef = !cold && r.chance(2)
 	soak := !cold && r.chance(12)
 
-	if soak {
+	volume := !cold && !soak && r.chance(volumeOdds(tier))
+	if volume {
+		// quantity: tens of thousands of calls in a row on one or two tiny values per task (a million in some
+		// thorough runs), operation-granular; what matters here is how many calls the process has seen
+		s.Mode = "volume"
+		n = 2 + r.intn(2)
+		s.Tasks = make([][]Op, n)
+		g.n = n
+		g.inbox = make([][]inboxEntry, n)
+		g.nextIx = make([]int, n)
+		g.maxOps = 64
+		total := 70000 + r.intn(70000)
+		if tier == "thorough" && r.chance(4) {
+			total = 1100000 + r.intn(200000)
+		}
+		k1 := g.pickKind()
+		if k1 == kCompound || k1 == kXR {
+			k1 = r.intn(kXR)
+		}
+		tiny := func(kind int) uint64 {
+			for try := 0; ; try++ {
+				sd := g.seedFor(r.u64())
+				if try >= 40 || len(dumpSem(genPacket(kind, sd), false)) < 1500 {
+					return sd
+				}
+			}
+		}
+		for t := 0; t < n; t++ {
+			kind := k1
+			if t > 0 && r.chance(3) {
+				kind = g.pickKind()
+				if kind == kCompound || kind == kXR {
+					kind = k1
+				}
+			}
+			o := g.newObjSeed(kind, tiny(kind), false, false)
+			b0 := g.newSlot()
+			g.emit(t, Op{K: opMarshal, A: o, B: b0})
+			g.emit(t, Op{K: opVolume, A: o, B: -1, N: total / n, Seed: r.u64()})
+			b1 := g.newSlot()
+			g.emit(t, Op{K: opMarshal, A: o, B: b1})
+			g.decodeOps(t, b1)
+			g.readOnlyOps(t, o, 2, false)
+		}
+	} else if soak {
 		// long call histories: few objects of one or two kinds, hundreds of calls of the same operations,
 		// every result retained (a recycled buffer, a wrapped counter or a full cache shows only late)
 		s.Mode = "soak"
@@ -829,9 +874,21 @@ func genSpec(seed uint64, cold bool, opOnly bool, tier string) *RunSpec {
 		est = 64
 	}
 	s.Sched = genSchedConfig(r, g.n, est, opOnly, tier)
+	if s.Mode == "volume" {
+		s.Sched.Gran = granOp
+		s.Sched.StepCap = 600000
+	}
 	if s.Mode == "soak" && !opOnly {
 		s.Sched.Gran = []int{granOp, granOp, granFunc, granStmt}[r.intn(4)]
 		s.Sched.StepCap = 600000
 	}
 	return s
+}
+
+// volumeOdds: one run in so many is a volume run.
+func volumeOdds(tier string) int {
+	if tier == "thorough" {
+		return 60
+	}
+	return 150
 }
